@@ -814,6 +814,79 @@ mod anytext {
     }
 }
 
+// ---------------------------------------------------------------------------------------------------------
+// C16: the derived conversions of every shipped deriving struct, on both paragraph back-ends (table generated from the
+// struct definitions by tools/gen_derive.py): round trip, declaration order, absent optional fields, update frame
+mod derive16 {
+    use super::Fail;
+    use deb822_lossless::{FromDeb822Paragraph, ToDeb822Paragraph};
+    type Lossy = deb822_lossless::lossy::Paragraph;
+    type Lossless = deb822_lossless::lossless::Paragraph;
+    fn lossy_items(p: &Lossy) -> Vec<(String, String)> { p.fields.iter().map(|f| (f.name.clone(), f.value.clone())).collect() }
+    fn fail(input: String, what: &str, expected: String, got: String) -> Fail { Fail { prop: "C16".into(), input, what: what.into(), expected, got } }
+
+    pub fn check<T>(name: &str, fields: &[(&str, &str, bool)]) -> Result<usize, Fail>
+    where T: FromDeb822Paragraph<Lossy> + ToDeb822Paragraph<Lossy> + FromDeb822Paragraph<Lossless> + ToDeb822Paragraph<Lossless>
+    {
+        let opt: Vec<usize> = (0..fields.len()).filter(|i| fields[*i].2).collect();
+        // which optional fields are present: all, none, all but one, only one
+        let mut variants: Vec<Vec<bool>> = vec![vec![true; fields.len()], fields.iter().map(|f| !f.2).collect()];
+        for &o in &opt {
+            let mut a = vec![true; fields.len()]; a[o] = false; variants.push(a);
+            let mut b: Vec<bool> = fields.iter().map(|f| !f.2).collect(); b[o] = true; variants.push(b);
+        }
+        let mut n = 0;
+        for present in &variants {
+            n += 1;
+            let pairs: Vec<(String, String)> = fields.iter().zip(present).filter(|(_, p)| **p).map(|(f, _)| (f.0.to_string(), f.1.to_string())).collect();
+            let shown = format!("{} from {:?}", name, pairs);
+            let p0: Lossy = pairs.clone().into_iter().collect();
+            let x = match <T as FromDeb822Paragraph<Lossy>>::from_paragraph(&p0) {
+                Ok(x) => x,
+                Err(e) => return Err(fail(shown, "from_paragraph rejects a paragraph that has every mandatory field", "Ok".into(), e)),
+            };
+            // to_paragraph: the present fields, in declaration order, under their configured names
+            let p1: Lossy = x.to_paragraph();
+            let want_keys: Vec<&str> = fields.iter().zip(present).filter(|(_, p)| **p).map(|(f, _)| f.0).collect();
+            let got_keys: Vec<String> = p1.fields.iter().map(|f| f.name.clone()).collect();
+            if got_keys != want_keys { return Err(fail(shown, "to_paragraph does not list exactly the present fields in declaration order under their configured names", format!("{:?}", want_keys), format!("{:?}", got_keys))); }
+            // round trip: the paragraph reads back to a value that prints the same paragraph
+            let y = match <T as FromDeb822Paragraph<Lossy>>::from_paragraph(&p1) {
+                Ok(y) => y,
+                Err(e) => return Err(fail(shown, "the paragraph written by to_paragraph is rejected by from_paragraph", format!("Ok for {:?}", lossy_items(&p1)), e)),
+            };
+            let p2: Lossy = y.to_paragraph();
+            if lossy_items(&p2) != lossy_items(&p1) { return Err(fail(shown, "value -> paragraph -> value -> paragraph is not stable", format!("{:?}", lossy_items(&p1)), format!("{:?}", lossy_items(&p2)))); }
+            // the lossless back-end gives the same fields
+            let q1: Lossless = x.to_paragraph();
+            let qi: Vec<(String, String)> = q1.items().collect();
+            if qi != lossy_items(&p1) { return Err(fail(shown, "lossy and lossless to_paragraph differ", format!("{:?}", lossy_items(&p1)), format!("{:?}", qi))); }
+            // update_paragraph on a paragraph that has every own field (old text) and two foreign fields
+            let mut base: Vec<(String, String)> = vec![("X-Foreign-A".to_string(), "1".to_string())];
+            for f in fields { base.push((f.0.to_string(), f.1.to_string())); }
+            base.push(("X-Foreign-B".to_string(), "2".to_string()));
+            let mut b: Lossy = base.clone().into_iter().collect();
+            x.update_paragraph(&mut b);
+            let text: String = base.iter().map(|(k, v)| format!("{}{}: {}\n", if k == "X-Foreign-B" { "# keep me\n" } else { "" }, k, v.replace('\n', "\n "))).collect();
+            let doc = match <deb822_lossless::Deb822 as std::str::FromStr>::from_str(&text) { Ok(d) => d, Err(_) => continue };
+            let mut l: Lossless = match doc.paragraphs().next() { Some(p) => p, None => continue };
+            x.update_paragraph(&mut l);
+            for (which, items, printed) in [("lossy", lossy_items(&b), String::new()), ("lossless", l.items().collect::<Vec<_>>(), doc.to_string())] {
+                for (f, p) in fields.iter().zip(present) {
+                    let got = items.iter().find(|kv| kv.0 == f.0).map(|kv| kv.1.clone());
+                    let want = if *p { p1.get(f.0).map(|s| s.to_string()) } else { None };
+                    if got != want { return Err(fail(format!("{} ({} paragraph)", shown, which), &format!("after update_paragraph the field {} does not read back as the value's field", f.0), format!("{:?}", want), format!("{:?}", got))); }
+                }
+                let foreign: Vec<&(String, String)> = items.iter().filter(|kv| kv.0.starts_with("X-Foreign")).collect();
+                if foreign != vec![&("X-Foreign-A".to_string(), "1".to_string()), &("X-Foreign-B".to_string(), "2".to_string())] { return Err(fail(format!("{} ({} paragraph)", shown, which), "update_paragraph changed a field the struct does not own", "X-Foreign-A: 1, X-Foreign-B: 2".into(), format!("{:?}", foreign))); }
+                if which == "lossless" && !printed.contains("# keep me\nX-Foreign-B: 2\n") { return Err(fail(format!("{} (lossless paragraph)", shown), "update_paragraph lost the comment in front of a foreign field", "# keep me".into(), printed)); }
+            }
+        }
+        Ok(n)
+    }
+    include!("gen_c16.rs");
+}
+
 const N_DOCS: usize = 4000;
 fn main() {
     let args: Vec<String> = std::env::args().collect();
@@ -829,6 +902,9 @@ fn main() {
     if prop == "C02" {
         std::panic::set_hook(Box::new(|_| {}));
         match anytext::run_c02() { Ok(n) => { eprintln!("vwit C02: no panic in {} calls", n); return; } Err(f) => f.print_and_exit() }
+    }
+    if prop == "C16" {
+        match derive16::run_all() { Ok(n) => { eprintln!("vwit C16: no failing input among {} struct values", n); return; } Err(f) => f.print_and_exit() }
     }
     if prop == "C15" {
         match acc::run() { Ok(n) => { eprintln!("vwit C15: no failing input among {} Buildinfo records", n); return; } Err(f) => f.print_and_exit() }
